@@ -63,3 +63,9 @@ check('C05', 'refmodel', 'exploration', 'reference-model monitor: float64 K-FAC 
       'Histories of train/eval/scheduler/reset/checkpoint events with constant or callable intervals and hyper-parameters; after every step the step count, factors '
       '(incl. bitwise-unchanged on non-update steps) and gradients must match the reference that preconditions with its snapshot.',
       'Documented call discipline (accumulation_steps passes per step, checkpoints at boundaries); finite histories (<=40 quick, <=200 thorough).', 'DESIGN.md §3 C05')
+
+check('C03', 'simdist', 'exploration', 'online trace monitors (collective matching M1-M4) + logical stall detection on a controlled scheduler over real multi-rank executions',
+      'Generated KAISA and GPT-NeoX histories (construction, hooks, steps, state_dict/memory_usage on rank subsets, load_state_dict, reset) on 1-8 (thorough 16) simulated ranks under '
+      'seven scheduler policies, late completion delivery and line-level callback-timing stress: every collective of every rank is matched online for kind, shape, dtype, root and group '
+      'membership, group creation order is compared across ranks, and a stall is a logical verdict (no runnable rank).',
+      'Asynchronous c10d semantics as implemented by simdist; DeepSpeed topology and Megatron layers are stand-ins; bounded histories.', 'DESIGN.md §3 C03')
